@@ -8,4 +8,5 @@ def run(ctx):
                 "distinct = distinct (operator, layout, run, pad, sid, keys)")
     ctx.assumptions = ["symbolic AEAD in the model; real HPKE (crypto/hpke) on the concrete side", "first hello only; the retried-hello path is C06"]
     echcommon.run_family(ctx, ["MCEchHello_c04.cfg"], sample=3000 if ctx.quick else None, what="C04")
-    echcommon.structural(ctx) if hasattr(echcommon, "structural") else None
+    # the retried-hello path: every history of EchConn.tla that ends in an abort (alert + close on Conn.Read)
+    echcommon.echconn_slice(ctx, lambda c: any(o[0] == "abort" for o in c["outs"]), label="aborts")
